@@ -634,16 +634,23 @@ class QueryObjectDescriptor(CanBehaveLikeAVariable[T], ABC):
                     v = conclusion._evaluate__(v)
             self._warn_on_unbound_variables_(v, selected_vars)
             if selected_vars:
-                var_val_gen = {var: var._evaluate__(copy(v))
-                               for var in selected_vars}
-                original_v = v
-                for sol in generate_combinations(var_val_gen):
-                    v = copy(original_v)
-                    var_val = {var._id_: sol[var][var._id_] for var in selected_vars}
-                    v.update(var_val)
-                    yield v
+                yield from self._bind_selected_variables_(list(selected_vars), v)
             else:
                 yield v
+
+    def _bind_selected_variables_(self, selected_vars: List[CanBehaveLikeAVariable],
+                                  values: Dict[int, HashedValue]) -> Iterable[Dict[int, HashedValue]]:
+        """
+        Lazily bind the selected variables that the conditions left unbound, one after the other, each under the
+        bindings made so far, such that selected expressions that share a variable stay correlated.
+        """
+        if not selected_vars:
+            yield values
+            return
+        for var_val in selected_vars[0]._evaluate__(copy(values)):
+            new_values = copy(values)
+            new_values.update(var_val)
+            yield from self._bind_selected_variables_(selected_vars[1:], new_values)
 
     def _warn_on_unbound_variables_(self, sources: Dict[int, HashedValue],
                                     selected_vars: Iterable[CanBehaveLikeAVariable]):
